@@ -4,9 +4,11 @@ CONSTANTS
   NumTokens = 2
   defaultInitValue = 0
   Hist <- HistA
+  MaxTick = 3
 CONSTRAINT Bound
 INVARIANT NoRaise
 INVARIANT ExactlyOnce
 INVARIANT EpisodeIsolation
 INVARIANT MessagesOrdered
 INVARIANT RecordsScheduleIndependent
+ACTION_CONSTRAINT SegmentAtomic
